@@ -335,6 +335,7 @@ pub open spec fn one_write(before: Seq<WriteEv>, after: Seq<WriteEv>) -> bool { 
 //@sub /std::fs::read_to_string\(/ => env.read_to_string( min=0
 //@sub /\.write\(/ => .write(env, min=0
 //@sub /(\w+) == ("(?:[^"\\]|\\.)*")/ => \1.eq_lit(\2) min=0
+//@sub /(\w+) != ("(?:[^"\\]|\\.)*")/ => !\1.eq_lit(\2) min=0
 //@sub /\bparse_bedgraph,/ => Fmt::BedGraph, min=0
 //@sub /\bparse_bed,/ => Fmt::Bed, min=0
 //@ret r
@@ -406,6 +407,7 @@ pub open spec fn one_write(before: Seq<WriteEv>, after: Seq<WriteEv>) -> bool { 
 //@sub /std::fs::read_to_string\(/ => env.read_to_string( min=0
 //@sub /\.write\(/ => .write(env, min=0
 //@sub /(\w+) == ("(?:[^"\\]|\\.)*")/ => \1.eq_lit(\2) min=0
+//@sub /(\w+) != ("(?:[^"\\]|\\.)*")/ => !\1.eq_lit(\2) min=0
 //@sub /\bparse_bedgraph,/ => Fmt::BedGraph, min=0
 //@sub /\bparse_bed,/ => Fmt::Bed, min=0
 //@ret r
